@@ -172,23 +172,31 @@ theorem rangeList_get (lo : Int) (n i : Nat) (h : i < n) :
       congr 3
       omega
 
-/-- the members of a range: the lower bound, then lower bound + 1, + 2, … -/
-theorem rangeFrom_get (a : N) (n i : Nat) (h : i < n) :
-    (rangeFrom a n)[i]? = some (if i = 0 then .num a else .num (ofInt (toInt a + i))) := by
-  cases n with
+theorem rangeFromAux_get (a : N) (k n i : Nat) (h : i < n) :
+    (rangeFromAux a k n)[i]? = some (.num (add a (ofInt ((k + i : Nat) : Int)))) := by
+  induction n generalizing k i with
   | zero => omega
-  | succ k =>
+  | succ m ih =>
     cases i with
-    | zero => simp [rangeFrom]
+    | zero => simp [rangeFromAux]
     | succ j =>
-      simp only [rangeFrom, List.getElem?_cons_succ]
-      rw [rangeList_get (toInt a + 1) k j (by omega)]
-      simp only [Nat.succ_ne_zero, if_false]
-      congr 3
+      simp only [rangeFromAux, List.getElem?_cons_succ]
+      rw [ih (k + 1) j (by omega)]
+      congr 5
       omega
 
-theorem rangeFrom_length (a : N) (n : Nat) : (rangeFrom a n).length = n := by
-  cases n <;> simp [rangeFrom, rangeList_length]
+/-- the members of a range: the i-th member is the lower bound plus i -/
+theorem rangeFrom_get (a : N) (n i : Nat) (h : i < n) :
+    (rangeFrom a n)[i]? = some (.num (add a (ofInt (i : Int)))) := by
+  have := rangeFromAux_get a 0 n i h
+  simpa [rangeFrom] using this
+
+theorem rangeFromAux_length (a : N) (k n : Nat) : (rangeFromAux a k n).length = n := by
+  induction n generalizing k with
+  | zero => rfl
+  | succ m ih => simp [rangeFromAux, ih]
+
+theorem rangeFrom_length (a : N) (n : Nat) : (rangeFrom a n).length = n := rangeFromAux_length a 0 n
 
 /-- `[a..b]` for integers a ≤ b: the integers from a to b; none when a > b; errors for
     non-integer bounds and for more than `maxRangeItems` items. -/
